@@ -49,6 +49,7 @@ type Chan struct {
 	env      bool   // environment-driven (ticker/timer): may deliver at any time
 	envName  string
 	envStopped bool
+	envQuiet   bool // never fires (harness declared timeouts out of scope)
 }
 
 func (r *Run) initGoroutines() {
@@ -182,7 +183,9 @@ func (r *Run) pickNext(fr *frame, except *Goroutine, why string) *Goroutine {
 	rs := r.runnable(except)
 	if len(rs) == 0 {
 		// environment may fire a ticker/timer that someone waits on
-		if g := r.envFire(fr, except); g != nil {
+		// the environment may fire a ticker/timer for any blocked goroutine, including the
+		// one that has just blocked
+		if g := r.envFire(fr, nil); g != nil {
 			return g
 		}
 		return nil
@@ -264,6 +267,12 @@ func (r *Run) block(fr *frame, what string, ready func() bool) {
 		if next == nil {
 			g.blocked = false
 			r.deadlock(fr, what)
+		}
+		if next == g {
+			// the environment made this goroutine's own wait ready
+			g.blocked = false
+			g.ready = nil
+			continue
 		}
 		r.transfer(g, next)
 		g.blocked = false
@@ -422,7 +431,7 @@ func (r *Run) chanRecv(fr *frame, cv Value, commaOk bool, elem types.Type) Value
 	var ok bool
 	if c.env && len(c.buf) == 0 && !c.envStopped {
 		// environment channel: may have fired already (decision)
-		if r.envFires < r.eng.cfg.EnvFires && r.choose(fr, 2, "envnow") == 1 {
+		if !r.eng.cfg.EnvLazy && r.envFires < r.eng.cfg.EnvFires && r.choose(fr, 2, "envnow") == 1 {
 			r.envFires++
 			c.buf = append(c.buf, r.envValue(c))
 		}
@@ -513,7 +522,7 @@ func (r *Run) selectStmt(fr *frame, instr *ssa.Select) Value {
 	for i := range states {
 		c := states[i].c
 		if c != nil && c.env && !states[i].send && len(c.buf) == 0 && !c.envStopped {
-			if r.envFires < r.eng.cfg.EnvFires && r.choose(fr, 2, "envnow") == 1 {
+			if !r.eng.cfg.EnvLazy && r.envFires < r.eng.cfg.EnvFires && r.choose(fr, 2, "envnow") == 1 {
 				r.envFires++
 				c.buf = append(c.buf, r.envValue(c))
 			}
